@@ -22,7 +22,9 @@ CLAIMS = {
             "Every exact algorithm/configuration (dp, ilp x 5 objective kinds; complete greedy x 3 objectives x all 16 "
             "switch combinations; ckk, snp, rnp) is compared with the optimum computed by enumerating all reachable "
             "sum vectors, on generated instances (<=10 items, <=5 bins, biased to planted/one-dominant inputs) and on "
-            "the complete scope of multisets of <=6 values from 0..7 x 1..4 bins.",
+            "the complete scope of multisets of <=6 values from 0..7 x 1..4 bins; volume legs at the largest shapes the oracles reach "
+            "(rnp with 5 bins, snp/ckk/cg with 5-6 bins, 3 bins x 11-13 items against a two-dimensional subset-sum optimum, 2 bins x 11-16 "
+            "items against a subset-sum optimum, inputs with 2-4 distinct values, dp with large layers on inputs where the objectives disagree).",
             "Oracle = layered set enumeration validated against itertools.product brute force at the start of every "
             "run; exponential, hence the size envelope. ILP restricted to values <=200 as in the quantifier.",
             "DESIGN.md 6/C02"),
@@ -44,7 +46,8 @@ CLAIMS = {
     "C05": ("exploration", "property-based testing with a cover-validity predicate",
             "Generated covering inputs (positive ints incl. items above the bin size, class-threshold values, inputs too "
             "small to cover a bin; five presentations) for the three covering algorithms; oracle: each bin sum >= bin "
-            "size, each name used at most once and known, unused value < bin size.",
+            "size, each name used at most once and known, unused value < bin size; the same call through the sums-only output types (Sums, "
+            "BinCount) is held to the same statement; a larger leg reaches 80 items.",
             "Exact integer arithmetic; names homogeneous per input.",
             "DESIGN.md 6/C05"),
     "C06": ("exploration", "property-based testing with a cross-output-type consistency oracle (one call per output type; everything recomputed from the full partition output)",
@@ -152,7 +155,7 @@ CLAIMS = {
             "the constraint must hold, the objective on (sum_i / weight_i) must equal the optimum over all feasible assignments, equal weights "
             "must leave the plain optimum, an infeasible request must raise ValueError and return nothing, and a tiny limit must end in "
             "ValueError or an optimal answer.",
-            "Weighted optimum taken over assignments whose weight-normalised sums are non-decreasing in bin index (documented ordering of the sums handed to additional_constraints); CBC inconsistencies told apart by re-solving with preprocessing off.",
+            "The caller's constraints are checked on the sums themselves (in bin-index order), and equal weights are compared with the plain call also under constraints; with non-uniform weights the optimum is taken over assignments whose weight-normalised sums are non-decreasing in bin index; CBC inconsistencies told apart by re-solving with preprocessing off.",
             "DESIGN.md 6/C17"),
     "C18": ("exploration", "metamorphic property-based testing (permutation, scaling, zero padding) + differential testing of exact algorithms against each other beyond the oracle's size",
             "Pairs (input, transformed input): a generated permutation must leave the sorted sum vector of the sorting heuristics and the optimal "
